@@ -83,10 +83,11 @@ VARIABLES tdef, q, files, jlines, mode, intr,      \* the environment's choices 
           groups,            \* aggregate state: <<[key, st]>>, st = one running state per aggregate
           printed,           \* records printed so far, in order
           steps,             \* incr mode: the output of each line (observation)
-          status             \* "ok" | "err" | "unk" | "panic"
+          status,            \* "ok" | "err" | "unk" | "panic"
+          closed             \* Lazy only: the environment has finished writing the input
 
 cvars == <<tdef, q, files, jlines, mode, intr>>
-vars == <<cvars, pc, running, ji, jidx, fi, li, hooks, consumed, seen, nout, groups, printed, steps, status>>
+vars == <<cvars, pc, running, ji, jidx, fi, li, hooks, consumed, seen, nout, groups, printed, steps, status, closed>>
 
 HasLimit == q.limit # NoLimit
 LimitReached == HasLimit /\ nout >= q.limit
@@ -229,7 +230,8 @@ JoinedEnvs(env) ==      \* the environments one admitted row fans out to
           ELSE <<>>
 
 \* ------------------------------------------------------------------ Init: the environment chooses
-CONSTANTS Statements, TableDefs, LineSet, MaxLines, MaxFiles, JoinLineSets, Modes, InterruptPoints
+CONSTANTS Statements, TableDefs, LineSet, MaxLines, MaxFiles, JoinLineSets, Modes, InterruptPoints,
+          Lazy       \* TRUE: the input is not fixed in Init; lines arrive one by one (Arrive) until Close -- for random long inputs under `tlc -simulate`
 
 RECURSIVE SeqsOf(_, _)
 SeqsOf(S, n) == IF n = 0 THEN {<<>>} ELSE LET P == SeqsOf(S, n - 1) IN P \cup {Append(s, x) : s \in {p \in P : Len(p) = n - 1}, x \in S}
@@ -244,7 +246,8 @@ Splits(ls) ==
 Init ==
   /\ q \in Statements
   /\ tdef \in TableDefs
-  /\ \E ls \in SeqsOf(LineSet, MaxLines) : files \in Splits(ls)
+  /\ IF Lazy THEN files = <<<<>>>> ELSE \E ls \in SeqsOf(LineSet, MaxLines) : files \in Splits(ls)
+  /\ closed = ~Lazy
   /\ jlines \in (IF q.join = "none" THEN {<<>>} ELSE JoinLineSets)
   /\ mode \in Modes
   /\ mode = "incr" => (q.limit = NoLimit /\ q.join = "none")
@@ -386,7 +389,19 @@ Final ==
      ELSE UNCHANGED <<printed, status>>
   /\ UNCHANGED <<cvars, running, ji, jidx, fi, li, hooks, consumed, seen, nout, groups, steps>>
 
-Next == LoadJoinLine \/ ReadLine \/ NextFile \/ NoFiles \/ Final
+\* Lazy input: a further line is written to the (single) input file, or the input ends
+Arrive(l) ==
+  /\ Lazy /\ ~closed /\ pc = "read" /\ fi = 1 /\ li = Len(files[1]) /\ Len(files[1]) < MaxLines
+  /\ files' = <<Append(files[1], l)>>
+  /\ UNCHANGED <<tdef, q, jlines, mode, intr, pc, running, ji, jidx, fi, li, hooks, consumed, seen, nout, groups, printed, steps, status, closed>>
+Close ==
+  /\ Lazy /\ ~closed /\ pc = "read" /\ li = Len(files[1])
+  /\ closed' = TRUE
+  /\ UNCHANGED <<cvars, pc, running, ji, jidx, fi, li, hooks, consumed, seen, nout, groups, printed, steps, status>>
+
+Next == \/ (LoadJoinLine \/ ReadLine \/ NoFiles \/ Final) /\ UNCHANGED closed
+        \/ (closed /\ NextFile /\ UNCHANGED closed)
+        \/ (\E l \in LineSet : Arrive(l)) \/ Close
 Spec == Init /\ [][Next]_vars
 
 \* ------------------------------------------------------------------ refinement: Engine vs Sem
